@@ -171,6 +171,13 @@ func replayMain(path string) int {
 	}
 	m1 := safeReplay(f, v.Case)
 	m2 := safeReplay(f, v.Case)
+	if v.Kind == "c13.race" {
+		// a free-running (sampling) pass: the report differs from run to run; it fails if either run fails
+		if m1 == "" {
+			m1 = m2
+		}
+		m2 = m1
+	}
 	if m1 != m2 {
 		fmt.Printf("replay DIVERGED between two executions:\n 1: %s\n 2: %s\n", m1, m2)
 		return 2
